@@ -104,10 +104,21 @@ theorem kernel_model_trace_sound (c : Biogo.PalsKernel.Costs) (v : Biogo.PalsKer
     (h : low ≤ high) (hh : high ≤ v.tlen) (hq : mid ≤ v.qlen) (hg : 0 ≤ c.maxIGap) (hx : ∀ i, 0 ≤ v.xf i) :
     let o := Biogo.PalsKernel.traceCore c v mid low high
     (mid ≤ o.maxI ∧ o.maxI ≤ v.qlen ∧ low ≤ o.maxJ ∧ o.maxJ ≤ v.tlen ∧ 0 ≤ o.maxScore) ∧
-    ((o.maxI = mid ∧ o.maxScore = 0) ∨ Reach c v mid low high o.maxI o.maxJ o.maxScore) ∧
+    ((o.maxI = mid ∧ o.maxScore = 0 ∧ (v.bestAtExtended = false → o.maxJ = low)) ∨
+      Reach c v mid low high o.maxI o.maxJ o.maxScore) ∧
     (o.maxLeft ≤ o.maxI - o.maxJ ∧ o.maxI - o.maxJ ≤ o.maxRight) ∧
     (∀ j0, low ≤ j0 → j0 ≤ high → o.maxLeft ≤ mid - j0 ∧ mid - j0 ≤ o.maxRight) :=
   traceCore_sound c v mid low high h hh hq hg hx
+
+open Biogo.Proofs.PalsKernelSound in
+/-- **`kernel_model_forward_keeps_contract`** — `traceForward` of the model, seeded on a row of the
+    query, satisfies `FwdOK` (scoring `kS`). -/
+theorem kernel_model_forward_keeps_contract (s : Biogo.PalsKernel.Seqs) (mid low high : Int)
+    (hm : 0 ≤ mid ∧ mid ≤ s.qlen) :
+    let o := Biogo.PalsKernel.traceForward palsCosts s mid low high
+    FwdOK (kS palsCosts) palsCosts.diffCost palsCosts.maxIGap s.target.toList s.query.toList mid low high
+      ⟨o.maxJ, o.maxI, o.maxScore⟩ :=
+  traceForward_ok palsCosts s mid low high hm.1 hm.2 palsCosts_ok.1.gap palsCosts_ok.1.block
 
 open Biogo.Proofs.PalsKernelSound in
 /-- **`kernel_model_reverse_keeps_contract`** — `traceReverse` of the model, called at a cell
